@@ -4,6 +4,7 @@
   check(trace_lines, scenario_text)  -> list of mismatch strings (empty = accepted)
   check_many([(trace_lines, scenario_text), ...]) -> {index: [mismatch strings]}, statistics dict
   python3 tools/planmodel.py selftest [nscenarios] [seed]   generate scenarios, run impl + model, report
+  python3 tools/planmodel.py campaign <seed-from> <seed-to> [nscenarios] [dir]   several seeds, totals
 
 `trace_lines` are the raw output lines of `impl_run engine` for ONE scenario (from `scenario <id>` to
 `end <id>`, or any slice containing whole `build N` blocks).  `scenario_text` is the scenario input
@@ -450,7 +451,24 @@ def selftest(n=300, seed=1, verbose=True):
             for b in bad[:6]: print('   ', b[:400])
     return res, stats, hs
 
+def campaign(seeds, n=500, outdir=None):
+    """several self tests; aggregated statistics"""
+    total = collections.Counter(); bad = 0
+    for seed in seeds:
+        res, stats, hs = selftest(n, seed, verbose=False)
+        total.update(stats)
+        for pi, b in sorted(res.items()):
+            bad += 1
+            print('seed %d scenario %s: %s' % (seed, hs[pi].sid, b[:3]))
+            if outdir: open(os.path.join(outdir, 'bad_%d_%s.txt' % (seed, hs[pi].sid)), 'w').write(hs[pi].text())
+    for k, v in sorted(total.items()): print('%-40s %d' % (k, v))
+    return bad
+
 if __name__ == '__main__':
+    if len(sys.argv) > 1 and sys.argv[1] == 'campaign':
+        a, b = int(sys.argv[2]), int(sys.argv[3])
+        sys.exit(1 if campaign(range(a, b), int(sys.argv[4]) if len(sys.argv) > 4 else 500,
+                               sys.argv[5] if len(sys.argv) > 5 else None) else 0)
     if len(sys.argv) > 1 and sys.argv[1] == 'selftest':
         n = int(sys.argv[2]) if len(sys.argv) > 2 else 300
         seed = int(sys.argv[3]) if len(sys.argv) > 3 else 1
